@@ -795,13 +795,14 @@ pub fn run<'a>(schedule: &Schedule, opts: &Options, on_thread_start: &(dyn Fn() 
     if n == 0 {
         return finish(&shared, names);
     }
+    let cpu = unsafe { libc::sched_getcpu() };
     std::thread::scope(|scope| {
         for (id, actor) in actors.into_iter().enumerate() {
             let shared = shared.clone();
             let body = actor.body;
             std::thread::Builder::new()
                 .name(format!("actor-{id}-{}", actor.name))
-                .spawn_scoped(scope, move || actor_main(shared, id, body, on_thread_start))
+                .spawn_scoped(scope, move || actor_main(shared, id, cpu, body, on_thread_start))
                 .expect("spawn actor thread");
         }
         // first decision: who starts
@@ -834,7 +835,23 @@ fn finish(shared: &Arc<Shared>, names: Vec<String>) -> Report {
     }
 }
 
-fn actor_main<'a>(shared: Arc<Shared>, id: usize, body: Body<'a>, on_thread_start: &(dyn Fn() + Sync)) {
+/// Pin the calling thread to `cpu`. Only one actor of a run executes at any time, so keeping all of
+/// them on the CPU of the thread that called `run` turns every baton hand-off into a local context
+/// switch (no cross-CPU wake-up / IPI — these dominate the cost, especially inside a VM).
+fn pin_to(cpu: i32) {
+    if cpu < 0 || std::env::var_os("VF_SCHED_NO_PIN").is_some() {
+        return;
+    }
+    unsafe {
+        let mut set: libc::cpu_set_t = std::mem::zeroed();
+        libc::CPU_ZERO(&mut set);
+        libc::CPU_SET(cpu as usize, &mut set);
+        let _ = libc::sched_setaffinity(0, std::mem::size_of::<libc::cpu_set_t>(), &set);
+    }
+}
+
+fn actor_main<'a>(shared: Arc<Shared>, id: usize, cpu: i32, body: Body<'a>, on_thread_start: &(dyn Fn() + Sync)) {
+    pin_to(cpu);
     ACTOR.with(|a| *a.borrow_mut() = Some((shared.clone(), id)));
     on_thread_start();
     let ctx = ActorCtx { shared: shared.clone(), id, waker: Waker::from(Arc::new(ActorWaker { shared: shared.clone(), actor: id })) };
